@@ -100,3 +100,25 @@ def run_case(case, acc):
             'region_mismatch', case,
             detail=dict(vars=gm.svars, missing=sorted(ref - got),
                         extra=sorted(got - ref)))
+        return
+    if case.get('const'):
+        # the same identifiers in another role, later in the same process:
+        # a fresh automaton in which every rigid constant is a variable of
+        # the environment instead (same formulas, same supports)
+        c2 = dict(case)
+        c2['env'] = list(case['env']) + list(case['const'])
+        c2['const'] = []
+        aut2 = fam.build_game(c2)
+        gm2 = fam.GameModel(aut2, c2)
+        P = [gm2.state_table(u) for u in aut2.win['<>[]']]
+        G = [gm2.state_table(u) for u in aut2.win['[]<>']]
+        z2, _, _ = gr1.solve_streett_game(aut2)
+        got = gm2.state_table(z2)
+        ref = gm2.winning(P, G, rabin=False)
+        acc.ev(dict(c=case, role='constants_as_env'),
+               0 < len(ref) < len(gm2.states))
+        if got != ref:
+            acc.violation(
+                'region_mismatch_after_role_change_in_process', case,
+                detail=dict(vars=gm2.svars, missing=sorted(ref - got),
+                            extra=sorted(got - ref)))
